@@ -759,6 +759,6 @@ func runLive(jobs []liveJob) {
 	st.mu.Unlock()
 	if len(stray) > 0 {
 		run.Violation("tunnel/request-sequence-differs/unattributable-request", fmt.Sprintf("the server observed %d requests that no peer sent, e.g. %s", len(stray), stray[0]),
-			liveWitness{Carrier: "tunnel", Detail: strings.Join(stray[:min(len(stray), 10)], " | ")})
+			liveWitness{caseID: caseID{Part: "live-all", Seed: run.Seed}, Carrier: "tunnel", Detail: strings.Join(stray[:min(len(stray), 10)], " | ")})
 	}
 }
